@@ -69,7 +69,7 @@ GROUPS = {
     'stack': ['vcell', 'stack'],
     'cont': ['vcell', 'stack', 'vm_struct', 'continuation', 'builtin_mod', 'builtin_procedure'],
     'builtins': ['vcell', 'stack', 'vm_struct', 'builtin_mod', 'builtin_vector', 'builtin_list'],
-    'compile': ['vm_struct', 'lambda', 'compile', 'builtin_procedure_eval'],
+    'compile': ['vm_struct', 'vm_prepare', 'lambda', 'compile', 'builtin_procedure_eval'],
     'runone': ['vcell', 'stack', 'vm_struct', 'continuation', 'run_one'],
     'numbuiltins': ['number', 'vcell', 'stack', 'vm_struct', 'builtin_mod', 'builtin_mod_num', 'builtin_number'],
 }
@@ -150,10 +150,10 @@ PROPS = {
                 'Vector::{len,get,put,new,clone_vector}, VCell::vector: assumed specs over the uninterpreted payload view vector_view',
                 'executable rewrite inside verified bodies: `.unwrap_or_else(|| v.len())` -> `.unwrap_or(v.len())` (closure results are opaque to Verus; the argument is a pure length read)',
             ]},
-    'C07': {'groups': ['run', 'stack'], 'search': 'search_fail',
+    'C07': {'groups': ['run', 'stack', 'compile'], 'search': 'search_fail',
             'assumptions': [
                 'decided: an evaluation that does not fail leaves no stack trace on record (a stale trace of an earlier failure is cleared); the error arm of run_count leaves the machine in the idle top-level control state (sp = 0, every stack slot wiped, bp = 0, ep = none) with heap and globals exactly as the failing instruction left them; Stack::clear wipes every slot (proved in unit stack)',
-                'not decided: that later evaluations then behave as in a VM that only performed the completed effects (needs the semantics of compile + run_one); read/compile errors happen before run_count and do not touch the machine (by reading prepare_eval)',
+                'a compile error leaves the control state untouched: every compile function, compile_runnable and prepare_eval are proved (group compile) to leave registers and stack as they were, prepare_eval moves %ip only on success; read errors happen before prepare_eval (by reading eval_text)', 'not decided: that later evaluations then behave as in a VM that only performed the completed effects (needs the semantics of compile + run_one)',
                 'run_one / StackTrace::new: assumed contracts; the contracts group run assumes for Stack::clear / get_sp / get_sp_mut (Stack is opaque there) are one text (specs/stack.py: CLEAR_MODEL, GET_SP_MODEL, GET_SP_MUT_MODEL) that unit stack, which runs under this property, proves on the real functions over the concrete views',
             ]},
     'C20': {'level': 'other', 'groups': [],
